@@ -249,8 +249,15 @@ pub fn case(t: &mut Tape, ctx: &CaseCtx) -> CaseResult {
     let mut script = gen_script(t, &profile());
     // reboot waits introduce pings and select! ties that are irrelevant here: keep reboots immediate
     script.reboot_allowed = vec![];
+    if t.chance(1, 4) {
+        // the installer records the new versions in the shared app set while the check is still running
+        script.embedder_bumps_versions_at_install = true;
+    }
     let h = run_history(script.clone(), &lives);
     let (nontrivial, mut classes, lost) = check_history(&h, false)?;
+    if h.log.iter().any(|o| matches!(o, Op::EmbedderChangedApps)) {
+        classes.push("app_versions_changed_during_the_install");
+    }
     if !lost.is_empty() {
         // twin: the same script with every undelivered report delivered
         let mut twin = script.clone();
